@@ -89,7 +89,7 @@ class K0:
 class K1(K0):
     def __init__(self, p0: Optional[K0]) -> None: self.a0 = p0
     def m0(self) -> int: return 2
-def f0(p0: Optional[K0], p1: int) -> int:      # length of the chain, at most p1 steps
+def f0(p0: Optional[K0], p1: int) -> int:      # sum over the chain, at most p1 steps (f1: see below)
     v0: int = 0
     v1: int = 0
     while (p0 is not None) and not (v1 == p1):
@@ -122,13 +122,39 @@ def exProg : Prog :=
                   .assign 3 (.add (.var 3) (.intLit 1)))) <|
           .seq (.expr (.probe 2 (.var 0))) <|
           .seq (.ite (.isinst 0 1) (.expr (.probe 3 (.var 0))) .pass) <|
-          .ret (.var 2) }] }
+          .ret (.var 2) },
+      -- def f1(p0: Optional[K0], p1: int) -> int:
+      --     v0: int = 0
+      --     while v0 < p1:
+      --         v0 = v0 + 1
+      --         if not p0: break
+      --         probe(4, p0)                       # K0
+      --         if isinstance(p0, K1): continue
+      --         p0 = p0.a0
+      --     probe(5, p0)                           # K0 | None
+      --     return v0 - 1
+      { params := [[.cls 0, .none], [.int]], locals := [[.int]], ret := [.int],
+        body :=
+          .seq (.decl 2 (.intLit 0)) <|
+          .seq (.while (.lt (.var 2) (.var 1))
+                 (.seq (.assign 2 (.add (.var 2) (.intLit 1))) <|
+                  .seq (.ite (.not (.var 0)) .brk .pass) <|
+                  .seq (.expr (.probe 4 (.var 0))) <|
+                  .seq (.ite (.isinst 0 1) .cont .pass) <|
+                  .assign 0 (.attr (.var 0) 0))) <|
+          .seq (.expr (.probe 5 (.var 0))) <|
+          .ret (.sub (.var 2) (.intLit 1)) }] }
 
 example : WF exProg := by decide
-example : tc exProg = .ok [(1, [.cls 0]), (2, [.cls 0, .none]), (3, [.cls 1])] := by decide
+example : tc exProg = .ok [(1, [.cls 0]), (2, [.cls 0, .none]), (3, [.cls 1]), (4, [.cls 0]), (5, [.cls 0, .none])] := by decide
 /-- and it runs: `f0(K1(K0(None)), 5)` visits a K1 then a K0 (dynamic dispatch: 2 + 1) -/
 example : (evalCall 60 exProg (exProg.funcs[0]!) [.ref 1, .int 5]
     { heap := [{ cls := 0, fields := [(0, .none)] }, { cls := 1, fields := [(0, .ref 0)] }], log := [] }).1 = .ok (.int 3) := by
+  decide
+
+/-- `f1(K0(K1(None)), 5)`: second iteration sees a K1 and `continue`s until the bound: 5 iterations -/
+example : (evalCall 80 exProg (exProg.funcs[1]!) [.ref 1, .int 5]
+    { heap := [{ cls := 1, fields := [(0, .none)] }, { cls := 0, fields := [(0, .ref 0)] }], log := [] }).1 = .ok (.int 4) := by
   decide
 
 /-! ## The full statement is false of mypy's rules: witnesses -/
